@@ -72,7 +72,7 @@ class C20(Check):
     driver = "drv_c20"
     theorems = ["Pox.C20.ioworker_stream", "Pox.C20.ioworker_drained", "Pox.C20.ioworker_after_fatal", "Pox.C20.ioworker_unguarded_defect", "Pox.C20.ioworker_shutdown",
                 "Pox.C20.shutdown_with_pending", "Pox.C20.ioworker_progress", "Pox.C20.ioworker_history", "Pox.C20.ioworker_closed_final", "Pox.C20.ctl_stream",
-                "Pox.C20.ctl_quiescent", "Pox.C20.ctl_after_fatal", "Pox.C20.ctl_no_attempt_after_fatal", "Pox.C20.ctl_history", "Pox.C20.ctl_env_disc", "Pox.C20.multi_conn"]
+                "Pox.C20.ctl_quiescent", "Pox.C20.ctl_after_fatal", "Pox.C20.ctl_no_attempt_after_fatal", "Pox.C20.ctl_history", "Pox.C20.ctl_env_disc", "Pox.C20.multi_conn", "Pox.C20.multi_conn_history"]
     anchors = [("pox/lib/ioworker/__init__.py", "IOWorker._do_send"), ("pox/lib/ioworker/__init__.py", "IOWorker._consume_send_buf"),
                ("pox/lib/ioworker/__init__.py", "IOWorker.send"), ("pox/lib/ioworker/__init__.py", "RecocoIOWorker.send_fast"), ("pox/lib/ioworker/__init__.py", "RecocoIOWorker.send"),
                ("pox/openflow/of_01.py", "DeferredSender._sliceup"), ("pox/openflow/of_01.py", "DeferredSender.send"), ("pox/openflow/of_01.py", "DeferredSender.run"),
